@@ -146,8 +146,12 @@ def run_case(case, cid):
             Dn = build(case, cval)
             # subs on a model that holds no symbol (any more) still hands out a NEW model: writing into it afterwards must not
             # show in the model it was called on
-            for M_ in (Dn, Sub):
-                st_ = ({tuple(k): v for k, v in dict.items(M_)}, copy.deepcopy(M_.constraints) if hasattr(M_, "constraints") else None)
+            def state_(m):
+                return ({tuple(k): v for k, v in dict.items(m)}, copy.deepcopy(m.constraints) if hasattr(m, "constraints") else None,
+                        dict(m.mapping) if hasattr(m, "mapping") else None, dict(m.reverse_mapping) if hasattr(m, "reverse_mapping") else None,
+                        set(m.variables))
+            for M_ in (Dn, Sub, S):
+                st_ = state_(M_)
                 N_ = M_.subs({lam: cval})
                 try:
                     N_[(case["labels"][0],)] = 12345
@@ -158,7 +162,7 @@ def run_case(case, cid):
                                 p_[("__poked__",)] = 1
                 except Exception:      # noqa
                     pass
-                if ({tuple(k): v for k, v in dict.items(M_)}, copy.deepcopy(M_.constraints) if hasattr(M_, "constraints") else None) != st_:
+                if state_(M_) != st_:
                     rec["subs_independent"] = False
         rec["orig_unchanged"] = ({tuple(k): v for k, v in dict.items(S)} == snap and
                                  (snap_cons is None or S.constraints == snap_cons))
@@ -166,6 +170,28 @@ def run_case(case, cid):
         # the library's own notion of "the same model": Python equality of the two objects and of their recorded constraints
         try:
             rec["py_equal"] = bool(Sub == Dn) and (not hasattr(Dn, "constraints") or bool(Sub.constraints == Dn.constraints))
+            if hasattr(Dn, "constraints"):
+                # the recorded constraints are the same KIND of objects, and the two models judge every assignment alike
+                kinds_ = lambda m: [(r, type(p_).__name__) for r, ps_ in sorted(m.constraints.items()) for p_ in ps_]      # noqa
+                rec["py_equal"] = rec["py_equal"] and kinds_(Sub) == kinds_(Dn)
+                vs_ = set(Dn.variables) | set(Sub.variables)
+                for ps_ in Dn.constraints.values():
+                    for p_ in ps_:
+                        vs_ |= {x for k_ in p_ for x in k_}
+                vs_ = sorted(vs_, key=repr)
+
+                def verdict_(m, x):
+                    try:
+                        return bool(m.is_solution_valid(x))
+                    except Exception as e_:      # noqa  (the same failure on both sides is agreement too)
+                        return type(e_).__name__
+                if len(vs_) <= 8:
+                    import itertools
+                    for bits_ in itertools.product([0, 1], repeat=len(vs_)):
+                        x_ = {v_: ((1 - 2 * b_) if case["spin"] else b_) for v_, b_ in zip(vs_, bits_)}
+                        if verdict_(Sub, x_) != verdict_(Dn, x_):
+                            rec["py_equal"] = False
+                            break
         except Exception:
             rec["py_equal"] = False
         # symbolic coefficients as affine pairs
